@@ -2018,6 +2018,79 @@ def gen_counters():
     return "".join(out)
 
 
+# ---------------------------------------------------------------------------
+# b3sum literals (C13 / C12): the characters and strings that define the checkfile format
+# ---------------------------------------------------------------------------
+def _rust_char(tok, name):
+    esc = {"\\\\": 92, "\\n": 10, "\\r": 13, "\\t": 9, "\\0": 0, "\\'": 39, '\\"': 34}
+    if tok in esc:
+        return esc[tok]
+    if len(tok) == 1:
+        return ord(tok)
+    raise AnchorError("%s: unsupported character literal %r" % (name, tok))
+
+
+def _rust_str(body, name):
+    out, i = [], 0
+    while i < len(body):
+        if body[i] == "\\":
+            out.append(_rust_char(body[i:i + 2], name))
+            i += 2
+        else:
+            out += list(body[i].encode())
+            i += 1
+    return out
+
+
+def gen_b3sum_literals():
+    text = src("b3sum/src/main.rs")
+    t = strip_comments(text) if False else re.sub(r"(?m)^\s*//[^\n]*", "", text)
+    out = [HEADER, "(* literals of b3sum/src/main.rs that define the checkfile format *)\n"]
+    body = fn_body(t, r"fn filepath_to_string\s*\(", "b3_filepath_to_string")
+    m = find1(r"filepath_string\.contains\(\[(.*?)\]\)", body, "b3_escape_guard")
+    guard = [_rust_char(c, "b3_escape_guard") for c in re.findall(r"'((?:\\.|[^'\\]))'", m.group(1))]
+    chain_txt = find1(r"filepath_string = filepath_string((?:\s*\.replace\('(?:\\.|[^'\\])', \"(?:\\.|[^\"\\])*\"\))+)\s*;\s*is_escaped = true;",
+                      body, "b3_escape_chain").group(1)
+    chain = [(_rust_char(a, "b3_escape_chain"), _rust_str(b, "b3_escape_chain"))
+             for a, b in re.findall(r"\.replace\('((?:\\.|[^'\\]))', \"((?:\\.|[^\"\\])*)\"\)", chain_txt)]
+    if not guard or not chain:
+        raise AnchorError("b3_escape_guard / b3_escape_chain empty")
+    out.append("Definition b3_escape_guard : list N := %s.\n" % coq_list(guard))
+    out.append("Definition b3_escape_chain : list (N * list N) :=\n  [%s].\n" % "; ".join("(%d, %s)" % (a, coq_list(b)) for a, b in chain))
+    body = fn_body(t, r"fn unescape\s*\(", "b3_unescape")
+    find1(r"while let Some\(i\) = path\.find\('\\\\'\)", body, "b3_unescape.find_backslash")
+    arms = re.findall(r"'((?:\\.|[^'\\]))' => unescaped\.push_str\(\"((?:\\.|[^\"\\])*)\"\)", body)
+    find1(r"_ => bail!\(\"Invalid backslash escape\"\)", body, "b3_unescape.default_arm")
+    if len(arms) != len(re.findall(r"=> unescaped\.push_str", body)):
+        raise AnchorError("b3_unescape: unrecognised match arm")
+    out.append("Definition b3_unescape_arms : list (N * list N) :=\n  [%s].\n"
+               % "; ".join("(%d, %s)" % (_rust_char(a, "b3_unescape"), coq_list(_rust_str(b, "b3_unescape"))) for a, b in arms))
+    body = fn_body(t, r"fn split_untagged_check_line\s*\(", "b3_split_untagged")
+    m = find1(r"line_after_slash\.split_once\(\"((?:\\.|[^\"\\])*)\"\)", body, "b3_plain_sep")
+    out.append("Definition b3_plain_sep : list N := %s.\n" % coq_list(_rust_str(m.group(1), "b3_plain_sep")))
+    body = fn_body(t, r"fn split_tagged_check_line\s*\(", "b3_split_tagged")
+    m1 = find1(r"let prefix = \"((?:\\.|[^\"\\])*)\";", body, "b3_tag_prefix")
+    find1(r"if !line_after_slash\.starts_with\(prefix\)", body, "b3_tag_prefix.starts_with")
+    m2 = find1(r"line_after_slash\[prefix\.len\(\)\.\.\]\.rsplit_once\(\"((?:\\.|[^\"\\])*)\"\)", body, "b3_tag_sep")
+    out.append("Definition b3_tag_prefix : list N := %s.\n" % coq_list(_rust_str(m1.group(1), "b3_tag_prefix")))
+    out.append("Definition b3_tag_sep : list N := %s.\n" % coq_list(_rust_str(m2.group(1), "b3_tag_sep")))
+    # the printing side (hash_one_input): marker first, then either form
+    body = fn_body(t, r"fn hash_one_input\s*\(", "b3_hash_one_input")
+    m = find1(r"if is_escaped \{\s*print!\(\"((?:\\.|[^\"\\])*)\"\);\s*\}\s*if args\.tag\(\) \{\s*print!\(\"((?:\\.|[^\"\\])*)\", filepath_string\);"
+              r"\s*write_hex_output\(output, args\)\?;\s*println!\(\);\s*return Ok\(\(\)\);\s*\}\s*write_hex_output\(output, args\)\?;\s*"
+              r"println!\(\"((?:\\.|[^\"\\])*)\", filepath_string\);", body, "b3_print_layout")
+    marker = _rust_str(m.group(1), "b3_print_layout")
+    tagfmt, plainfmt = m.group(2), m.group(3)
+    if tagfmt.count("{}") != 1 or plainfmt.count("{}") != 1 or not plainfmt.endswith("{}"):
+        raise AnchorError("b3_print_layout: unexpected format strings")
+    tp, ts = tagfmt.split("{}")
+    out.append("Definition b3_print_marker : list N := %s.\n" % coq_list(marker))
+    out.append("Definition b3_print_tag_prefix : list N := %s.\n" % coq_list(_rust_str(tp, "b3_print")))
+    out.append("Definition b3_print_tag_sep : list N := %s.\n" % coq_list(_rust_str(ts, "b3_print")))
+    out.append("Definition b3_print_plain_sep : list N := %s.\n" % coq_list(_rust_str(plainfmt[:-2], "b3_print")))
+    return "".join(out)
+
+
 def write_if_changed(path, text):
     try:
         with open(path) as f:
@@ -2132,7 +2205,7 @@ def gen_globals(c_objects, rs_archives, rs_crate="blake3", hook_prefixes=()):
 GENERATORS = [("GenConsts.v", gen_consts), ("GenFormulas.v", gen_formulas), ("GenTestVectors.v", gen_test_vectors),
               ("GenDispatch.v", gen_dispatch),
               ("GenAsmFrames.v", gen_asm_frames),
-              ("GenApi.v", gen_api),
+              ("GenApi.v", gen_api), ("GenB3sum.v", gen_b3sum_literals),
               ("GenCounters.v", gen_counters)]
 
 
